@@ -24,6 +24,11 @@ type vProgram struct {
 	mem             bool
 	globals         int // number of mutable i32 globals (initial value = index + 1)
 	extra           []interpreter.VerifFuncSpec
+	loopMax         uint32 // non-zero: parameter 0 is a loop counter, assumed in 1..loopMax
+	// decode-time configuration the code is COMPILED under (the instance it runs in is always the general one: a memory
+	// that may move whenever it grows); memMax 0 means 65536 pages
+	memMax                            uint32
+	capFromMax, dwarf, customSections bool
 }
 
 func vTrapOf(w *vWorld, outcome int) int {
@@ -56,7 +61,11 @@ func vSlot(name string, t byte) uint64 {
 // vCompare runs p on the interpreter (real pipeline) and evaluates the optimised wazevo SSA of the same binary, both from
 // the same arbitrary memory (size 0..65536 pages) and arguments, and asserts the same outcome, results, globals and memory.
 func vCompare(p *vProgram) {
-	spec := &interpreter.VerifModuleSpec{HasMem: p.mem, MemMin: 1, MemMax: 65536}
+	memMax := uint32(65536)
+	if p.memMax != 0 {
+		memMax = p.memMax
+	}
+	spec := &interpreter.VerifModuleSpec{HasMem: p.mem, MemMin: 1, MemMax: memMax}
 	spec.Funcs = append(spec.Funcs, interpreter.VerifFuncSpec{Params: p.params, Results: p.results, Locals: p.locals, Body: p.body, Export: "f"})
 	spec.Funcs = append(spec.Funcs, p.extra...)
 	for i := 0; i < p.globals; i++ {
@@ -64,7 +73,7 @@ func vCompare(p *vProgram) {
 		spec.GlobalInits = append(spec.GlobalInits, int64(i+1))
 	}
 	bin := interpreter.VerifEncode(spec)
-	w, err := vCompile(bin, false, false)
+	w, err := vCompileCfg(bin, false, false, p.capFromMax, p.dwarf, p.customSections)
 	verifrt.Assert(err == nil, "by-construction valid module is accepted by the compiler front end")
 	if err != nil {
 		return
@@ -72,11 +81,11 @@ func vCompare(p *vProgram) {
 	var memI []byte
 	if p.mem {
 		pages := verifrt.U32("pages")
-		verifrt.Assume(pages <= 65536)
+		verifrt.Assume(pages <= memMax)
 		size := uint64(pages) << 16
 		memI = verifrt.Bytes("mem", size)
 		w.mem = verifrt.Bytes("mem", size) // same arbitrary contents, separate copy
-		w.memMax = 65536
+		w.memMax = memMax
 	}
 	names := []string{"a0", "a1", "a2", "a3"}
 	args := make([]uint64, len(p.params))
@@ -85,7 +94,7 @@ func vCompare(p *vProgram) {
 		args[i] = vSlot(names[i], t)
 		wargs[i] = vVal{lo: args[i]}
 	}
-	resI, trapI, finalI, globI, ok := interpreter.VerifInterpRun(bin, "f", memI, 65536, args)
+	resI, trapI, finalI, globI, ok := interpreter.VerifInterpRun(bin, "f", memI, memMax, args)
 	verifrt.Assert(ok, "module accepted by the interpreter")
 	if !ok {
 		return
